@@ -1,0 +1,124 @@
+//go:build verif
+
+// Contracts for deep copies, aliasing and frames (C16).  Comment-only file.
+//
+// `fresh(x)`: x was allocated during the call.  `pure`: the call modifies no object that existed before it
+// (objects it allocates itself do not count).  `writes p`: it may write the backing array of slice p.
+// `modifies H@p`: it may modify heap H of the object p designates.  Declared frames of functions under
+// contract are verified against their bodies (obligation <func>#frame.modifies); frames of interface methods
+// are verified for every implementation in the package.
+
+package dns
+
+//@ iface RR.copy [C16]
+//@   opt no-safety
+//@   ensures fresh: fresh(ret0) && ret0 != nil
+//@   ensures sametype: typeof(ret0) == typeof(recv)
+//@   pure
+//@   fresh
+//@ iface RR.len [C16]
+//@   opt no-safety
+//@   pure
+//@ iface RR.String [C16]
+//@   opt no-safety
+//@   pure
+//@ iface RR.isDuplicate [C16 C20]
+//@   opt no-safety
+//@   pure
+//@ iface RR.pack [C16]
+//@   opt no-safety
+//@   writes msg
+
+//@ iface EDNS0.copy [C16]
+//@   opt no-safety
+//@   ensures fresh: fresh(ret0) && ret0 != nil
+//@   pure
+//@   fresh
+//@ iface EDNS0.String [C16]
+//@   opt no-safety
+//@   pure
+//@ iface SVCBKeyValue.copy [C16]
+//@   opt no-safety
+//@   ensures fresh: fresh(ret0) && ret0 != nil
+//@   pure
+//@   fresh
+
+// options / parameters that hold byte slices: the copy's slice must be a fresh array
+//@ func (*EDNS0_SUBNET).copy [C16]
+//@   ensures addr: fresh(asptr(ret0, EDNS0_SUBNET).Address)
+//@ func (*EDNS0_DAU).copy [C16]
+//@   ensures alg: fresh(asptr(ret0, EDNS0_DAU).AlgCode)
+//@ func (*EDNS0_DHU).copy [C16]
+//@   ensures alg: fresh(asptr(ret0, EDNS0_DHU).AlgCode)
+//@ func (*EDNS0_N3U).copy [C16]
+//@   ensures alg: fresh(asptr(ret0, EDNS0_N3U).AlgCode)
+//@ func (*EDNS0_LOCAL).copy [C16]
+//@   ensures data: fresh(asptr(ret0, EDNS0_LOCAL).Data)
+//@ func (*EDNS0_PADDING).copy [C16]
+//@   ensures pad: fresh(asptr(ret0, EDNS0_PADDING).Padding)
+//@ func (*SVCBMandatory).copy [C16]
+//@   ensures code: fresh(asptr(ret0, SVCBMandatory).Code)
+//@ func (*SVCBAlpn).copy [C16]
+//@   ensures alpn: fresh(asptr(ret0, SVCBAlpn).Alpn)
+//@ func (*SVCBECHConfig).copy [C16]
+//@   ensures ech: fresh(asptr(ret0, SVCBECHConfig).ECH)
+//@ func (*SVCBLocal).copy [C16]
+//@   ensures data: fresh(asptr(ret0, SVCBLocal).Data)
+//@ func (*SVCBIPv4Hint).copy [C16]
+//@   ensures hint: fresh(asptr(ret0, SVCBIPv4Hint).Hint)
+//@ func (*SVCBIPv6Hint).copy [C16]
+//@   ensures hint: fresh(asptr(ret0, SVCBIPv6Hint).Hint)
+
+//@ func copyNet [C16]
+//@   opt no-safety
+//@   ensures fresh(ret0.IP) && fresh(ret0.Mask)
+//@   pure
+//@ func (*APLPrefix).copy [C16]
+//@   opt no-safety
+//@   ensures fresh(ret0.Network.IP) && fresh(ret0.Network.Mask)
+//@   pure
+
+//@ func Copy [C16]
+//@   opt no-safety
+//@   ensures fresh(ret0)
+//@   pure
+//@ func Len [C16 C08]
+//@   opt no-safety
+//@   pure
+//@ func IsDuplicate [C16 C20]
+//@   opt no-safety
+//@   pure
+
+// packing writes the caller's buffer and, for PackRR, the record's own RDLENGTH (documented bookkeeping)
+//@ func packRR [C16]
+//@   opt no-safety
+//@   writes msg
+//@ func PackRR [C16]
+//@   opt no-safety
+//@   writes msg
+//@   modifies H.RR_Header.Rdlength.v@rr
+
+// signing and verifying work on copies of the records
+//@ func rawSignatureData [C16 C10]
+//@   opt no-safety
+//@   pure
+
+// RR_Header implements RR only to carry a bare header next to an error; PrivateRR delegates to user code.
+//@ func (*RR_Header).copy
+//@   opt exclude = returns nil by design
+//@ func (*RR_Header).len
+//@   opt exclude = header only
+//@ func (*RR_Header).String
+//@   opt exclude = header only
+//@ func (*RR_Header).isDuplicate
+//@   opt exclude = header only
+//@ func (*PrivateRR).copy
+//@   opt exclude = user code (PrivateRdata.Copy)
+//@ func (*PrivateRR).len
+//@   opt exclude = user code
+//@ func (*PrivateRR).String
+//@   opt exclude = user code
+//@ func (*PrivateRR).pack
+//@   opt exclude = user code (PrivateRdata.Pack)
+//@ func (*PrivateRR).isDuplicate
+//@   opt exclude = user code
